@@ -24,9 +24,14 @@ import (
 	"runtime"
 	"strings"
 	"sync"
+	"sync/atomic"
 	"time"
 
 	ipfslog "berty.tech/go-ipfs-log"
+	"berty.tech/go-ipfs-log/enc"
+	"berty.tech/go-ipfs-log/entry"
+	"berty.tech/go-ipfs-log/iface"
+	"berty.tech/go-ipfs-log/io/cbor"
 	"berty.tech/go-ipfs-log/verifhook"
 )
 
@@ -39,11 +44,12 @@ type c14Case struct {
 	Mutation string `json:"mutation,omitempty"` // snapshot: append | append2 | join (what happens to the source meanwhile)
 	Logs     int    `json:"logs,omitempty"`     // cross: length of the cycle
 	Barrier  string `json:"barrier,omitempty"`  // cross: yield point at which the merges wait for each other
-	Rounds   int    `json:"rounds,omitempty"`   // random
+	Rounds   int    `json:"rounds,omitempty"`   // random, ladder
+	Keyed    bool   `json:"keyed,omitempty"`    // every log uses one link-encrypting codec
 }
 
 func (c c14Case) signature() string {
-	return fmt.Sprintf("%s|%s|%s|%d|%s", c.Scenario, c.Park, c.Mutation, c.Logs, c.Barrier)
+	return fmt.Sprintf("%s|%s|%s|%d|%s|%v", c.Scenario, c.Park, c.Mutation, c.Logs, c.Barrier, c.Keyed)
 }
 
 var c14Points = []string{"join.before-heads", "join.before-entries", "join.locked", "join.diffed"}
@@ -345,8 +351,205 @@ func c14Random(c c14Case) (c14Result, []monitorFailure) {
 	return out, fails
 }
 
+// c14CountLog is the source log as Join sees it, with the look-ups into the snapshot of its entries
+// counted.  Past the budget the snapshot answers "not held", so that a runaway walk drains instead
+// of eating the machine.
+type c14CountLog struct {
+	*ipfslog.IPFSLog
+	gets, budget, size int64
+}
+
+type c14CountEntries struct {
+	iface.IPFSLogOrderedEntries
+	l *c14CountLog
+}
+
+func (l *c14CountLog) GetEntries() iface.IPFSLogOrderedEntries {
+	inner := l.IPFSLog.GetEntries()
+	var n int64
+	for _, e := range inner.Slice() {
+		n += 2 + int64(len(e.GetNext()))
+	}
+	atomic.StoreInt64(&l.size, n)
+	atomic.StoreInt64(&l.budget, 16*n*n+1000)
+	return &c14CountEntries{IPFSLogOrderedEntries: inner, l: l}
+}
+
+func (m *c14CountEntries) Get(k string) (iface.IPFSLogEntry, bool) {
+	if atomic.AddInt64(&m.l.gets, 1) > atomic.LoadInt64(&m.l.budget) {
+		return nil, false
+	}
+	return m.IPFSLogOrderedEntries.Get(k)
+}
+
+// c14Ladder: two logs append and merge each other after every round, so that every entry has two
+// predecessors and the number of PATHS from the heads grows as 2^rounds while the number of
+// entries grows as 2*rounds.  A log that holds none of it then merges from one of them while that
+// one is appended to.  The merge must end: the look-ups it makes into the source's entries are
+// counted and must stay polynomial (at most 16 (entries+links)^2) - a walk that follows every path
+// separately makes 2^rounds of them and, in practice, never returns.
+func c14Ladder(c c14Case) (c14Result, []monitorFailure) {
+	var out c14Result
+	_, logs := c14Logs(3)
+	a, b, fresh := logs[0], logs[1], logs[2]
+	ctx := context.Background()
+	for k := 0; k < c.Rounds; k++ {
+		for _, l := range []*ipfslog.IPFSLog{a, b} {
+			if _, err := l.Append(ctx, []byte(fmt.Sprintf("ladder-%d", k)), nil); err != nil {
+				panic(err)
+			}
+		}
+		if _, err := a.Join(b, -1); err != nil {
+			panic(err)
+		}
+		if _, err := b.Join(a, -1); err != nil {
+			panic(err)
+		}
+	}
+	src := &c14CountLog{IPFSLog: a}
+	stop := make(chan struct{})
+	adone := make(chan struct{})
+	go func() {
+		defer close(adone)
+		for k := 0; k < 6; k++ {
+			select {
+			case <-stop:
+				return
+			default:
+			}
+			if _, err := a.Append(ctx, []byte(fmt.Sprintf("live-%d", k)), nil); err != nil {
+				panic(err)
+			}
+			runtime.Gosched()
+		}
+	}()
+	_, err := fresh.Join(src, -1)
+	close(stop)
+	<-adone
+	out.Reached = true
+	gets, budget, size := atomic.LoadInt64(&src.gets), atomic.LoadInt64(&src.budget), atomic.LoadInt64(&src.size)
+	var fails []monitorFailure
+	if gets > budget {
+		fails = append(fails, monitorFailure{Property: "C14", Monitor: "merge-terminates", Key: "C14:merge-work-explodes", Case: c,
+			Detail: fmt.Sprintf("merging a source of %d rounds of cross-merged appends (entries+links = %d) made more than %d look-ups into the source's entries (cut off there; the count doubles with every round)", c.Rounds, size, budget)})
+		return out, fails
+	}
+	if err != nil {
+		out.Errs = append(out.Errs, err.Error())
+		fails = append(fails, monitorFailure{Property: "C14", Monitor: "join-error", Key: "C14:join-error", Case: c, Detail: err.Error()})
+	}
+	fails = append(fails, c14CheckMerged("C14", c, fresh, logs, nil, nil, nil)...)
+	out.Heads = c13Hashes(fresh.Heads().Slice())
+	out.Entries = fresh.Len()
+	return out, fails
+}
+
+func c14AdditionalData(l *ipfslog.IPFSLog) map[string]string {
+	m := map[string]string{}
+	for _, e := range l.GetEntries().Slice() {
+		b, _ := json.Marshal(e.GetAdditionalData()) // keys are sorted
+		m[hs(e.GetHash())] = string(b)
+	}
+	return m
+}
+
+// c14Fanout: several logs merge from one source at the same time (under the race detector), while
+// the source is appended to.  The entry objects of the source are shared by every log that merged
+// them, so a merge must treat them as read-only: what the source's entries say is compared before
+// and after.
+func c14Fanout(c c14Case) (c14Result, []monitorFailure) {
+	var out c14Result
+	_, logs := c14Logs(4)
+	src := logs[0]
+	for k := 0; k < 4; k++ {
+		c13MustAppend(src, fmt.Sprintf("fan-%d", k))
+	}
+	seed := c.Seed
+	verifhook.SetHandler(func(point string, arg interface{}) {
+		for i, k := 0, c13Yields(point, seed); i < k; i++ {
+			runtime.Gosched()
+		}
+	})
+	defer verifhook.SetHandler(nil)
+	var fails []monitorFailure
+	// one merge alone first: what it leaves in the source's entry objects
+	before := c14AdditionalData(src)
+	if _, err := logs[3].Join(src, -1); err != nil {
+		fails = append(fails, monitorFailure{Property: "C14", Monitor: "join-error", Key: "C14:join-error", Case: c, Detail: err.Error()})
+	}
+	after := c14AdditionalData(src)
+	for h, v := range before {
+		if after[h] != v {
+			fails = append(fails, monitorFailure{Property: "C14", Monitor: "source-untouched", Key: "C14:merge-writes-to-source", Case: c,
+				Detail: fmt.Sprintf("merging from the source changed the source's entry %s: additional data %s before, %s after", h, v, after[h])})
+			break
+		}
+	}
+	start := make(chan struct{})
+	var wg sync.WaitGroup
+	var emu sync.Mutex
+	for i := 1; i <= 2; i++ {
+		wg.Add(1)
+		go func(dst *ipfslog.IPFSLog) {
+			defer wg.Done()
+			<-start
+			for k := 0; k < c.Rounds; k++ {
+				if _, err := dst.Join(src, -1); err != nil {
+					emu.Lock()
+					out.Errs = append(out.Errs, err.Error())
+					emu.Unlock()
+				}
+			}
+		}(logs[i])
+	}
+	wg.Add(1)
+	go func() {
+		defer wg.Done()
+		<-start
+		for k := 0; k < c.Rounds; k++ {
+			c13MustAppend(src, fmt.Sprintf("fan-live-%d", k))
+		}
+	}()
+	close(start)
+	fin := make(chan struct{})
+	go func() { wg.Wait(); close(fin) }()
+	select {
+	case <-fin:
+	case <-time.After(c14Watchdog + 4*time.Second):
+		out.Hung = true
+		return out, append(fails, monitorFailure{Property: "C14", Monitor: "completion", Key: "C14:deadlock", Case: c,
+			Detail: "concurrent merges from one source did not complete (goroutines abandoned)"})
+	}
+	out.Reached = true
+	for _, e := range out.Errs {
+		fails = append(fails, monitorFailure{Property: "C14", Monitor: "op-error", Key: "C14:op-error", Case: c, Detail: e})
+	}
+	for i := 1; i <= 3; i++ {
+		fails = append(fails, c14CheckMerged("C14", c, logs[i], logs, nil, nil, nil)...)
+	}
+	out.Heads = c13Hashes(logs[1].Heads().Slice())
+	out.Entries = logs[1].Len()
+	return out, fails
+}
+
 func c14Run(c c14Case) (c14Result, []monitorFailure) {
+	c13IO, c13Pad = nil, 0
+	if c.Keyed {
+		key, err := enc.NewSecretbox([]byte("0123456789abcdef0123456789abcdef"))
+		if err != nil {
+			panic(err)
+		}
+		dio, err := cbor.IO(&entry.Entry{}, &entry.LamportClock{})
+		if err != nil {
+			panic(err)
+		}
+		c13IO = dio.ApplyOptions(&cbor.Options{LinkKey: key})
+	}
 	switch c.Scenario {
+	case "ladder":
+		return c14Ladder(c)
+	case "fanout":
+		return c14Fanout(c)
 	case "snapshot":
 		return c14Snapshot(c)
 	case "cross":
@@ -426,7 +629,14 @@ func runC14(seed int64, tier string, outDir string) *result {
 		rounds, reps = 12, 300
 	}
 	for i := 0; i < reps; i++ {
-		exec(c14Case{Scenario: "random", Seed: seed*31 + int64(i), Rounds: rounds + rng.Intn(4)})
+		exec(c14Case{Scenario: "random", Seed: seed*31 + int64(i), Rounds: rounds + rng.Intn(4), Keyed: i%3 == 2})
+	}
+	// 2b. fan-out from one source (with and without sealed links); a deep ladder of cross merges
+	for i := 0; i < reps/4; i++ {
+		exec(c14Case{Scenario: "fanout", Seed: seed*41 + int64(i), Rounds: rounds, Keyed: i%2 == 0})
+	}
+	for _, n := range []int{3, 12, 30} {
+		exec(c14Case{Scenario: "ladder", Seed: seed, Rounds: n, Keyed: n == 12})
 	}
 	// 3. symmetric cross merges: 2-cycle and 3-cycle, all merges meeting at each yield point
 	for _, n := range []int{2, 3} {
